@@ -8,6 +8,9 @@ after a rejection its deep fingerprint must equal the one taken before.
 """
 import random
 
+import decimal
+import fractions
+
 import numpy as np
 
 from vmon import gen, spec as S
@@ -74,7 +77,10 @@ def param_kind(cls_name, param):
 
 
 INVALID = {
-    'size-pix': ['zero', 'neg', 'nan', 'inf', '-inf', 'str', 'none', 'list', 'arr1d', 'q-angle', 'q-length', 'complex', 'neg-int', 'tuple'],
+    'size-pix': ['zero', 'neg', 'nan', 'inf', '-inf', 'str', 'none', 'list', 'arr1d', 'q-angle', 'q-length', 'complex', 'neg-int', 'tuple',
+                 # the same invalid values carried by other numeric types Python / NumPy offer
+                 'dec-inf', 'dec-nan', 'dec-neg', 'dec-zero', 'frac-neg', 'frac-zero', 'f32-inf', 'f32-nan', 'f16-inf', 'ld-inf', 'ld-neg',
+                 'i64-zero', 'i8-neg', 'huge-neg-int', 'f32-neg', 'u8-zero'],
     'size-sky': ['zero-q', 'neg-q', 'nan-q', 'inf-q', 'plain-float', 'str', 'none', 'q-length', 'q-arr1d', 'q-dimensionless', 'list', 'q-solid-angle',
                  'q-deg2', 'q-angular-speed'],
     'angle': ['plain-float', 'str', 'none', 'q-length', 'q-arr1d', 'q-dimensionless', 'list', 'q-time', 'q-solid-angle', 'q-deg2', 'q-angular-speed'],
@@ -86,6 +92,7 @@ INVALID = {
     'pixregion': ['none', 'str', 'a-sky-region', 'plain-float'],
     'skyregion': ['none', 'str', 'a-pix-region', 'plain-float'],
 }
+NONFINITE_VIDS = ('nan', 'inf', 'nan-q', 'inf-q', 'dec-inf', 'dec-nan', 'f32-inf', 'f32-nan', 'f16-inf', 'ld-inf')
 AMBIG = {'size-pix': ['arr0d'], 'size-sky': ['q-arr0d-like']}
 
 
@@ -97,6 +104,10 @@ def make_value(vid, prng):
         'zero': 0, 'neg': -1.5, 'neg-int': -3, 'nan': float('nan'), 'inf': float('inf'), '-inf': float('-inf'), 'str': '3', 'none': None,
         'list': [1.0, 2.0], 'tuple': (1.0, 2.0), 'arr1d': np.array([1.0, 2.0]), 'arr0d': np.array(3.0), 'arr2d': np.ones((2, 2)),
         'complex': 1 + 2j, 'plain-float': 2.5,
+        'dec-inf': decimal.Decimal('Infinity'), 'dec-nan': decimal.Decimal('NaN'), 'dec-neg': decimal.Decimal('-1.5'), 'dec-zero': decimal.Decimal(0),
+        'frac-neg': fractions.Fraction(-1, 2), 'frac-zero': fractions.Fraction(0), 'f32-inf': np.float32('inf'), 'f32-nan': np.float32('nan'),
+        'f16-inf': np.float16('inf'), 'ld-inf': np.longdouble('inf'), 'ld-neg': np.longdouble(-2), 'i64-zero': np.int64(0), 'i8-neg': np.int8(-3),
+        'huge-neg-int': -10 ** 30, 'f32-neg': np.float32(-1.5), 'u8-zero': np.uint8(0),
         'q-angle': 3 * u.deg, 'q-length': 3 * u.m, 'q-time': 3 * u.s, 'q-dimensionless': 3 * u.dimensionless_unscaled,
         'q-solid-angle': 2 * u.sr, 'q-deg2': 3 * u.deg ** 2, 'q-angular-speed': 3 * u.deg / u.s,
         'q-arr1d': [1, 2] * u.deg, 'zero-q': 0 * u.arcsec, 'neg-q': -2 * u.arcsec, 'nan-q': np.nan * u.deg, 'inf-q': np.inf * u.deg,
@@ -299,7 +310,7 @@ def run_ctor(case, obs, prng):
                 obs.violation('ctor-wrong-exception-type', f'{case["cls"]}({p}={vid}) raised {type(exc).__name__}: {exc}')
                 continue
             key = 'ctor-accepts-invalid:' + kind
-            if vid in ('nan', 'inf', 'nan-q', 'inf-q'):
+            if vid in NONFINITE_VIDS:
                 key = K_NONFINITE
             obs.violation(key, f'{case["cls"]}({p}={bad[p]!r}) was accepted (value kind {vid}, parameter kind {kind})')
     # annulus ordering at construction
@@ -438,7 +449,7 @@ def run_history(case, obs, prng):
                 continue
             if accepted:
                 key = 'assign-accepts-invalid:' + kind
-                if vid in ('nan', 'inf', 'nan-q', 'inf-q'):
+                if vid in NONFINITE_VIDS:
                     key = K_NONFINITE
                 obs.violation(key, f'{cname}.{p} = {v!r} was accepted (value kind {vid}, parameter kind {kind})')
                 # put a valid value back so the history can go on
